@@ -14,7 +14,7 @@ NAMES = ["foo", "Foo", "foo_bar", "foo.bar", "foo-bar", "Foo..Bar__baz", "a", "A
          "FOO--BAR", "z_Z", "name2", "n.0", "Django", "zope.interface", "ruamel.yaml.clib"]
 PY = ["py3", "py2", "cp39", "cp312", "pp310", "PY3", "Cp311", "py38", "ip27", "cp3_13"]
 ABI = ["none", "abi3", "cp39", "cp312", "cp312t", "NONE", "cp39m", "pypy310_pp73", "Abi3"]
-PLAT = ["any", "linux_x86_64", "manylinux_2_17_x86_64", "manylinux2014_x86_64", "win32", "win_amd64", "macosx_10_9_x86_64",
+PLAT = ["any", "linux_armv7l", "linux_sh", "manylinux2014_armv7l", "plat_w", "linux_x86_64", "manylinux_2_17_x86_64", "manylinux2014_x86_64", "win32", "win_amd64", "macosx_10_9_x86_64",
         "macosx_11_0_arm64", "MacOSX_10_9_universal2", "ANY", "musllinux_1_1_aarch64"]
 SUFFIX = ["", "", "", "a", "b1", "_", "x", "_1", ".", "alpha", "ABC", "é", " ", "+x", "x9", ".0"]
 NAME_DAMAGE = {"dunder": "__", "space": " ", "plus": "+", "bang": "!", "slash": "/", "at": "@", "newline_inside": "\n", "quote": "'"}
@@ -353,6 +353,17 @@ class C14(Prop):
             got_t = {(t.interpreter, t.abi, t.platform) for t in tags}
             if got_t != want_t or len(tags) != len(want_t) or tags != frozenset(T.Tag(*x) for x in want_t):
                 return False, f"{f!r}: tags {sorted(map(str, tags))}, expected the product {sorted(want_t)}"
+            # the name part as older build back ends write it: only '-' replaced, dots / upper case / runs of '_' and '.' kept
+            # (a double underscore is rejected by design); the PEP 503 name is the same
+            loose = w["name"].replace("-", "_")
+            if "__" not in loose:
+                f2 = assemble_wheel(w, name_text=loose)
+                try:
+                    name2 = U.parse_wheel_filename(f2)[0]
+                except Exception as e:
+                    return False, f"parse_wheel_filename({f2!r}) raises {type(e).__name__}"
+                if name2 != ref_fold(w["name"]):
+                    return False, f"{f2!r}: name {name2!r}, expected {ref_fold(w['name'])!r}"
             return True, ""
         if law == "wheel_rejects":
             w = _wheel(inp["w"])
